@@ -390,8 +390,8 @@ for _k in ('suback_v311', 'unsuback_v311', 'suback_v5', 'unsuback_v5'):
       bounds='%s (id r all u16) received by a connected client with one pending id u (still in use, or already released by the application) and one unrelated id' % _k.upper(), symbolic='u, w, r, still-used flag',
       encodes=['process_recv_*_%s' % _k.split('_')[0]])
 # v5.0 codec harnesses follow the same scheme as the steps (global unwind 2 + whitelist)
-CODEC_UWS = [(r'verif_harness', 24)] + STEP_UWS
-LONG_UWS = [(r'verif_harness', 140)] + STEP_UWS[:-1] + [(r'mqtt_string|mqtt_binary|arc_payload', 140), (r'memcmp|compare_bytes|SlicePartialEq|5slice3cmp', 140), STEP_UWS[-1]]
+CODEC_UWS = STEP_UWS[:-1] + [(r'verif_harness', 24), STEP_UWS[-1]]
+LONG_UWS = STEP_UWS[:-1] + [(r'verif_harness', 140), (r'mqtt_string|mqtt_binary|arc_payload', 140), (r'memcmp|compare_bytes|SlicePartialEq|5slice3cmp', 140), STEP_UWS[-1]]
 for _h in HARNESSES:
     if _h['file'] == 'codec' and (_h['name'].startswith(('c02_v5_', 'c04_v5_')) or _h['name'] in ('c04_subscribe_family_prefixes', 'c04_suback_family_prefixes', 'c04_v311_connect_prefixes', 'c03_numeric_tables', 'c02_v311_connect', 'c02_v311_subscribe_family')):
         _h['uws'] = LONG_UWS if 'props12' in _h['name'] else CODEC_UWS
